@@ -3,7 +3,7 @@
 Spec: spec/Vdi.tla (GuestView from VDICore.h semantics; ImplRead = transcription of VDI._read).
 A: every TLC-enumerated image (all block maps incl. permuted placements, both markers, tail sizes) is encoded by
    harness/enc_vdi.py at several concretisations and every derived request is replayed on the real VDI class.
-B: random images at real geometry, random operation sequences on the real object; traces validated by TraceVdi."""
+B: random images at real geometry, random operation sequences on the real object; traces validated by TraceDisk."""
 from __future__ import annotations
 
 import random
@@ -79,8 +79,7 @@ def make_trace(tid, rng, nops=30):
     fresh = b.open()
     rec = record.Recorder(s, size_b, probe=fresh.readoffset)
     record.random_ops(rec, rng, size_b, nops, unit=bs, big=min(3 * bs + 4096, 6 << 20))
-    return {"tid": tid, "fmt": "vdi", "img": {"n": n, "map": mp, "parent": parent}, "cellB": bs, "sizeB": size_b,
-            "bases": [b.bases[0]], "pbase": b.parent_base, "events": rec.events}
+    return {"tid": tid, "fmt": "vdi", "img": {"n": n, "map": mp, "parent": parent}, "sizeB": size_b, "geo": b.geo(), "events": rec.events}
 
 
 def _attrs(img, prof):
@@ -92,7 +91,7 @@ def run(ctx):
     ctx.rule = ("A: every image enumerated by TLC from spec/Vdi.tla (all block maps over {unalloc, zero, position p}, "
                 "permuted placements, tail sizes, parent yes/no) x concretisation profiles x derived byte requests; "
                 "non-trivial = request crosses a source change (kind change or placement discontinuity), distinct by "
-                "(profile, image, offset, length). B: random real-geometry images and op sequences, validated by TraceVdi.")
+                "(profile, image, offset, length). B: random real-geometry images and op sequences, validated by TraceDisk.")
     ctx.assumptions = ["encoder harness/enc_vdi.py follows VDICore.h", "TLC explores the stated constants exhaustively",
                        "dissect.util AlignedStream is part of the system under test"]
     # 1. design level: TLC checks the transcription of VDI._read against GuestView for every image and request
@@ -103,7 +102,7 @@ def run(ctx):
                            attrs_of=_attrs, cap=80 if thorough else 48)
     # 3. B: traces from the real code validated by TLC
     diskprop.traces(ctx, "vdi", lambda tid, r: make_trace(tid, r, 40 if thorough else 25), 400 if thorough else 64,
-                    "TraceVdi", "TraceVdi.cfg", lambda t: {"format": "vdi", "block_size": t["cellB"], "parent": t["img"]["parent"]})
+                    "TraceDisk", "TraceDisk.cfg", lambda t: {"format": "vdi", "block_size": t["geo"]["cellB"], "parent": t["img"]["parent"]})
 
 
 def replay(ctx, body):
@@ -117,7 +116,7 @@ def replay(ctx, body):
         tid = d.get("tid") or d["trace"]["tid"]
         from harness import tracecheck
         t = make_trace(tid, random.Random(body["seed"] * 9176 + tid), 40 if body.get("tier") == "thorough" else 25)
-        v, _ = tracecheck.validate("TraceVdi", "TraceVdi.cfg", [t])
+        v, _ = tracecheck.validate("TraceDisk", "TraceDisk.cfg", [t])
         print(v)
         return v[tid][0] == "accept"
     img = d["img"]
